@@ -11,6 +11,7 @@ CACHE = os.path.join(VERIF, ".cache")
 EVIDENCE = os.path.join(VERIF, "evidence")
 REPLAYS = os.path.join(VERIF, "replays")
 NCPU = int(os.environ.get("VERIF_JOBS", "16"))
+TIER = "quick"      # set by main(); the thorough tier adds the independent re-check with coqchk
 
 ENV = dict(os.environ)
 ENV.update({"CARGO_NET_OFFLINE": "true", "GOPROXY": "off", "PIP_NO_INDEX": "1"})
@@ -117,13 +118,34 @@ def proof_obligations(prop, module, theorems):
     if not ok:
         raise CheckFailure(f"Coq development does not build (theorems for {prop} not established)", log[-4000:])
     res = print_assumptions(module, theorems)
+    chk = coqchk(module) if TIER == "thorough" else None
     obl = []
     for t in theorems:
         a = res.get(t)
         if a != "closed":
             raise CheckFailure(f"theorem {t} depends on axioms or is missing", str(a))
         obl.append({"theorem": f"{module}.{t}", "assumptions": "Closed under the global context"})
+    if chk is not None:
+        obl.append({"theorem": f"coqchk -o -silent Unimock.{module} (independent re-check of the compiled files and all their dependencies)",
+                    "assumptions": chk})
     return obl
+
+
+def coqchk(module, timeout=1500):
+    """Independent checker over the property module and everything it depends on; returns its axiom summary."""
+    rc, out, err = sh(["coqchk", "-o", "-silent", "-Q", COQ, "Unimock", f"Unimock.{module}"], cwd=COQ, timeout=timeout)
+    text = out + err
+    if rc != 0:
+        raise CheckFailure(f"coqchk rejects Unimock.{module}", text[-3000:])
+    m = re.search(r"\* Axioms:\s*(.*?)\n\s*\n", text, re.S)
+    axioms = " ".join(m.group(1).split()) if m else "?"
+    if axioms != "<none>":
+        raise CheckFailure(f"coqchk reports axioms for Unimock.{module}", axioms)
+    for label in ("type-in-type", "unsafe (co)fixpoints", "positivity is assumed"):
+        m2 = re.search(re.escape(label) + r":\s*(.*?)\n", text)
+        if m2 and m2.group(1).strip() != "<none>":
+            raise CheckFailure(f"coqchk: {label}: {m2.group(1).strip()}", text[-2000:])
+    return "coqchk: Axioms: <none>"
 
 
 def coq_eval_cases(prelude, case_terms, show="lines_of_cases", shard=100, timeout=900):
@@ -281,6 +303,35 @@ def split_harness(text):
         elif cur is not None:
             cur.append(line)
     return {"complete": complete, "partial": cur}
+
+
+def inventory_obligation():
+    """The model's method table (Model/Run.v: hinfo) against the MockFnInfo the real macro generated for
+    every method of the harness inventory (hook verif::mock_fn_facts): regenerated and re-checked by Coq."""
+    binary = build_harness("core")
+    rows = run_harness(binary, ["info"], jobs=1)[0]
+    items = []
+    for r in rows:
+        mid, tr, me, d, p = r.split(" ")
+        items.append(f'({mid}, "{tr}", "{me}", {d}, {p})')
+    src = ("From Unimock Require Import Model.Run.\nOpen Scope N_scope.\nOpen Scope string_scope.\n"
+           "Definition observed : list (N * string * string * bool * bool) := [" + "; ".join(items) + "].\n"
+           "Definition row_ok (r : N * string * string * bool * bool) : bool :=\n"
+           "  let '(m, tr, me, d, p) := r in\n"
+           "  (String.eqb (mi_trait (hinfo m)) tr && String.eqb (mi_method (hinfo m)) me &&\n"
+           "   Bool.eqb (mi_has_default (hinfo m)) d && Bool.eqb (mi_partial_by_default (hinfo m)) p)%bool.\n"
+           "Lemma inventory_ok : forallb row_ok observed = true.\nProof. vm_compute. reflexivity. Qed.\n")
+    d = tempfile.mkdtemp(prefix="vinv")
+    try:
+        open(os.path.join(d, "InventoryCheck.v"), "w").write(src)
+        rc, out, err = sh(["coqc", "-noglob", "-Q", COQ, "Unimock", "InventoryCheck.v"], cwd=d, timeout=300)
+        if rc != 0 or len(rows) < 19:
+            raise CheckFailure("InventoryCheck.inventory_ok: the model's method table (hinfo) no longer matches the MockFnInfo generated by the macro",
+                               "\n".join(rows) + "\n" + (out + err)[-1500:])
+    finally:
+        shutil.rmtree(d, ignore_errors=True)
+    return [{"theorem": f"InventoryCheck.inventory_ok (regenerated: MockFnInfo of {len(rows)} inventory methods = Model.Run.hinfo)",
+             "assumptions": "Closed under the global context"}]
 
 
 # ---------------------------------------------------------------- reporting
